@@ -21,7 +21,7 @@ ID = "C16"
 LEVEL = "model_checking"
 
 TYPE_NAMES = ["any", "array", "boolean", "integer", "null", "number", "object", "string", "foo"]
-TYPE_VALUES = [None, True, False, 0, 1.0, 1.5, "", "a", [], [1], {}, {"a": 1}]
+TYPE_VALUES = [None, True, False, 0, 1.0, 1.5, "", "a", [], [1], {}, {"a": 1}, (1,)]
 FMT_NAMES = ["ipv4", "ip-address", "date", "email", "regex", "time", "fmt-a", "fmt-b", "fmt-cls", "nope"]
 FMT_VALUES = ["127.0.0.1", "x", "2020-01-01", "ok-a", "ok-cls", 3]
 
@@ -40,7 +40,9 @@ CLASS_PROBES = [
     ("other", {"properties": {"a": {"type": "boolean"}}, "additionalProperties": False}, [{"a": True}, {"a": 1, "b": 2}]),
     ("ids", {"properties": {"a": {"id": "http://x.invalid/dir/", "$id": "http://y.invalid/dir/",
                                   "items": {"$ref": "other.json#/t"}}}}, [{"a": [1]}, {"a": ["s"]}]),
-    ("meta", "check_schema", [{"type": "integer"}, {"type": 12}, {"minimum": "x"}]),
+    ("meta", "check_schema", [{"type": "integer"}, {"type": 12}, {"minimum": "x"}, {"minLength": "3"}]),
+    ("ref", {"definitions": {"t": {"type": "integer"}}, "properties": {"a": {"$ref": "#/definitions/t"}}},
+     [{"a": 1}, {"a": "s"}]),
 ]
 
 
@@ -64,6 +66,18 @@ def kw_zzz(validator, value, instance, schema):
 
 def fmt_a(instance):
     return instance == "ok-a"
+
+
+def fmt_a2(instance):
+    return instance == "x"
+
+
+def kw_ref_custom(validator, value, instance, schema):
+    yield exceptions.ValidationError("custom ref")
+
+
+def kw_type_permissive(validator, value, instance, schema):
+    return ()
 
 
 def fmt_cls(instance):
@@ -221,9 +235,11 @@ OPS = ([("tc.redefine", b) for b in ("draft4_type_checker", "LAST")] +
        [("tc.redefine_many", "draft3_type_checker"), ("tc.remove", "draft6_type_checker"), ("tc.remove", "LAST")] +
        [("extend", b) for b in BASES] + [("extend+override", b) for b in BASES] +
        [("extend+add", b) for b in ("Draft4", "LAST")] + [("extend+tc", b) for b in ("Draft6", "LAST")] +
+       [("extend+override-ref", "Draft4"), ("extend+override-ref", "LAST"),
+        ("extend+override+version", "Draft7"), ("extend+tc+version", "Draft4"), ("create+default_types", "Draft3")] +
        [("create", "Draft4"), ("create+version", "Draft7"), ("types-arg", "Draft4"), ("types-arg", "LAST")] +
-       [("fc.checks", "draft7_format_checker"), ("fc.checks", "LAST"), ("cls_checks",), ("fc.new",),
-        ("fc.new-subset",)])
+       [("fc.checks", "draft7_format_checker"), ("fc.checks", "LAST"), ("fc.rechecks", "LAST"), ("cls_checks",),
+        ("fc.new",), ("fc.new-subset",)])
 
 
 def resolve_target(w, kind, name, default):
@@ -270,6 +286,36 @@ def apply_op(w, op):
             elif k == "extend+add":
                 new = jsv.extend(cls, validators={"zzz": kw_zzz})
                 changes = {"4:zzz": (("zzz rejects 1",), ())}
+            elif k == "extend+override-ref":
+                new = jsv.extend(cls, validators={"$ref": kw_ref_custom})
+                # check_schema evaluates the metaschema with the class itself, and every metaschema uses $ref
+                changes = {"8:ids": (("custom ref",), ("custom ref",)), "10:ref": (("custom ref",), ("custom ref",)),
+                           "9:meta": probe("class", new)["9:meta"]}      # draft-dependent: recorded at creation
+            elif k == "extend+override+version":
+                # registered under the parent's own metaschema id, with a `type` keyword that accepts everything
+                # (so its check_schema accepts what the parent's rejects): the parent itself must not notice
+                new = jsv.extend(cls, validators={"type": kw_type_permissive},
+                                 version="verif-ext%d" % (w.counter + 1))
+                w.add(w.fresh("class"), "class", new, None)
+                w.objs[-1][3] = probe("class", new)       # recorded at creation, must stay fixed
+                return ("created", w.objs[-1][0])
+            elif k == "extend+tc+version":
+                tcp = w.last("tc", "draft3_type_checker")
+                try:
+                    new = jsv.extend(cls, type_checker=tcp[2], version="verif-tc%d" % (w.counter + 1))
+                except TypeError:
+                    return ("TypeError",)
+                w.add(w.fresh("class"), "class", new, None)
+                w.objs[-1][3] = probe("class", new)       # recorded at creation, must stay fixed
+                return ("created", w.objs[-1][0])
+            elif k == "create+default_types":
+                new = jsv.create(meta_schema=cls.META_SCHEMA, validators=cls.VALIDATORS, id_of=cls.ID_OF,
+                                 default_types={"array": (list, tuple), "object": dict, "string": str,
+                                                "number": (int, float), "integer": int, "null": type(None),
+                                                "boolean": bool, "foo": (bytes,)})
+                w.add(w.fresh("class"), "class", new, None)
+                w.objs[-1][3] = probe("class", new)       # a new type table: recorded once; children must inherit it
+                return ("created", w.objs[-1][0])
             elif k == "extend+tc":
                 tcp = w.last("tc", "draft3_type_checker")
                 try:
@@ -314,6 +360,16 @@ def apply_op(w, op):
                                     "__names__": tuple(sorted(set(pv["__names__"]) | {name}))})
             parent[3] = exp       # this very object changes, by design; nobody else may
             return ("registered", parent[0], name)
+        if k == "fc.rechecks":
+            parent = w.last("fc", "draft4_format_checker")
+            fc, pv = parent[2], parent[3]
+            for v in FMT_VALUES:                       # use it first (anything memoised gets memoised now)
+                fc.conforms(v, "fmt-a")
+            fc.checks("fmt-a")(fmt_a2)                 # then replace the function behind the same name
+            exp = with_changes(pv, {"fmt-a": tuple((v == "x") for v in FMT_VALUES),
+                                    "__names__": tuple(sorted(set(pv["__names__"]) | {"fmt-a"}))})
+            parent[3] = exp
+            return ("re-registered", parent[0])
         if k == "cls_checks":
             FormatChecker.cls_checks("fmt-cls")(fmt_cls)
             if "fmt-cls" not in w.cls_formats:
